@@ -15,8 +15,15 @@ TRUSTED = ['CPython int()/float() raise only ValueError on str input (NUM oracle
            're Unicode classes \\w \\s \\d answered by CPython (OpenMetrics native-histogram patterns)',
            'io.StringIO line splitting']
 ASSUMPTIONS = ['termination is proved on the model (fuel is sufficient); the harness additionally runs every input under a watchdog']
-TIME_BUDGET = {'quick': 110, 'thorough': 1300}
+TIME_BUDGET = {'quick': 150, 'thorough': 1500}
 ORACLE = dict(c03.ORACLE)
+try:
+    from . import c14om
+    ORACLE.update(c14om.ORACLE)
+    TRUSTED = TRUSTED + [t for t in c14om.TRUSTED if t not in TRUSTED]
+    ASSUMPTIONS = ASSUMPTIONS + list(c14om.ASSUMPTIONS)
+except ImportError:
+    c14om = None
 
 SPECIAL = ['a', '{', '}', '"', '\\', ',', '=', ' ', '1', '#', '\n']
 EXTRA = ['\t', '\x1c', '\xa0', '_', '.', 'e', '+', '-', 'N', 'n', '\r', ' ', 'é', '0', '9' * 400, '1' + '0' * 400,
@@ -102,6 +109,21 @@ def mutations(rng, doc, k):
 
 
 def cases(ctx):
+    """text-format stream, then the OpenMetrics stream (harness/c14om.py), interleaved so that a time cut keeps both"""
+    import itertools
+    streams = [text_cases(ctx)]
+    if c14om is not None:
+        def om():
+            for c in c14om.cases(ctx):
+                yield dict(c, fmt='om', text=c['doc'], origin=c.get('why', 'om'))
+        streams.append(om())
+    for group in itertools.zip_longest(*streams):
+        for c in group:
+            if c is not None:
+                yield c
+
+
+def text_cases(ctx):
     rng = ctx.rng
     for s in ['# HELP \x1c x\n', '# TYPE \xa0 gauge\n', 'a 1 1' + '0' * 400 + '\n', 'a{b="c"}\n', 'a{', '}x{ 1', 'a{}} 1',
               '{} 1', '{"a"} 1', 'a{,} 1', 'a{,,} 1', 'a{b="c",} 1', 'a{b=} 1', 'a{="c"} 1', '# TYPE a\n', '# TYPE a b c d\n',
@@ -135,18 +157,18 @@ def impl(case):
         pass
     if case['fmt'] == 'text':
         return run_text_impl(case['text'])
-    from . import c14om
     return c14om.impl(case)
 
 
 def model(m, case):
     if case['fmt'] == 'text':
         return c03.jsonable(c03.canon_model_parsed(m.call('text_parse', False, True, True, case['text'])))
-    from . import c14om
     return c14om.model(m, case)
 
 
 def direct(case, obs):
+    if case['fmt'] == 'om':
+        return c14om.direct(case, obs)
     if obs[0] == 'ok' or obs[1] == 'ValueError':
         return None
     if obs[1] == 'Timeout':
@@ -159,10 +181,16 @@ def nontrivial(case, obs):
 
 
 def classify(case, obs):
+    if case['fmt'] == 'om':
+        return ['om:' + k for k in c14om.classify(case, obs)]
     return [case['fmt'] + ':' + case['origin'], case['fmt'] + ':' + (obs[0] if obs[0] == 'ok' else obs[1])]
 
 
 def shrinks(case):
+    if case['fmt'] == 'om':
+        for c in c14om.shrinks(case):
+            yield dict(c, fmt='om', text=c['doc'], origin='shrink')
+        return
     t = case['text']
     n = len(t)
     step = max(1, n // 8)
@@ -175,6 +203,10 @@ def shrinks(case):
 
 
 def neighbours(case):
+    if case['fmt'] == 'om':
+        for c in c14om.neighbours(case):
+            yield dict(c, fmt='om', text=c['doc'], origin='nb')
+        return
     t = case['text']
     for i in range(min(len(t), 60)):
         for c in SPECIAL:
